@@ -140,6 +140,23 @@ def _strip_alias(t):
     return t
 
 
+def _pure_path(t):
+    """member access path over this / a parameter / a local, possibly through smart-pointer arrows: no other calls"""
+    if not isinstance(t, list) or not t:
+        return False
+    if t[0] == "member":
+        return _pure_path(t[2])
+    if t[0] in ("this", "param", "var"):
+        return True
+    if t[0] in ("cast",):
+        return _pure_path(t[2])
+    if t[0] == "u" and t[1] in ("*", "&"):
+        return _pure_path(t[2])
+    if t[0] == "opcall" and t[3] in ("->", "*") and len(t[4]) == 1:
+        return _pure_path(t[4][0])
+    return False
+
+
 def _canon_aliases(rec):
     """The value a helper returned reaches the caller's code through `__ret` and, typically, a local the caller
     binds to it.  Rules identify objects by the local that holds them, so these single-definition copies are
@@ -156,19 +173,28 @@ def _canon_aliases(rec):
             elif e["e"] == "incdec" and isinstance(e.get("x"), list) and e["x"][:1] == ["var"]:
                 defs.setdefault(e["x"][1], []).append(None)
     alias = {}
+    expr = {}            # __ret / its copies -> the pure access path the helper returned (a member of something)
     rets = [v for v in defs if v % 100000 == 99999]
     for r in rets:
         if len(defs[r]) == 1:
             src = _strip_alias(defs[r][0])
             if isinstance(src, list) and src[:1] == ["var"] and src[1] != r:
                 alias[r] = src[1]
+            elif _pure_path(src):
+                expr[r] = src
     for v, ds in defs.items():
         if v in alias or len(ds) != 1:
             continue
         src = _strip_alias(ds[0])
         if isinstance(src, list) and src[:1] == ["var"] and src[1] in rets and src[1] in alias:
             alias[v] = src[1]
-    if not alias:
+    for v, ds in defs.items():
+        if v in expr or v in alias or len(ds) != 1:
+            continue
+        src = _strip_alias(ds[0])
+        if isinstance(src, list) and src[:1] == ["var"] and src[1] in expr:
+            expr[v] = expr[src[1]]
+    if not alias and not expr:
         return
 
     def root(v):
@@ -183,6 +209,8 @@ def _canon_aliases(rec):
             if len(t) >= 2 and t[0] == "var" and isinstance(t[1], int) and t[1] in alias:
                 r = root(t[1])
                 return ["var", r, names.get(r, t[2] if len(t) > 2 else "")]
+            if len(t) >= 2 and t[0] == "var" and isinstance(t[1], int) and t[1] in expr:
+                return copy.deepcopy(expr[t[1]])
             return [rw(x) for x in t]
         return t
 
@@ -191,7 +219,8 @@ def _canon_aliases(rec):
             # the defining events themselves keep their left-hand side
             for key in TREE_KEYS:
                 if key in e and e[key] is not None:
-                    if key == "lhs" and e["e"] == "assign" and e["lhs"][:1] == ["var"] and e["lhs"][1] in alias:
+                    if key == "lhs" and e["e"] == "assign" and e["lhs"][:1] == ["var"] and \
+                            (e["lhs"][1] in alias or e["lhs"][1] in expr):
                         continue
                     e[key] = rw(e[key])
         t = b.get("term")
